@@ -556,48 +556,5 @@ theorem put_sim (h : PInv t m) (key : Key) (hsk : Small key) (v : V) :
 
 end
 
-/-- one step of a history in scope -/
-theorem step_sim {t : Patricia V} {m : Map V} (h : PInv t m) (op : Op V) (hs : op.patriciaScope = true)
-    (hnc : ∀ k v, op = .put k v → Small k) :
-    ∃ t', t.step op = .ok (t', (Map.step m op).2) ∧ PInv t' (Map.step m op).1 := by
-  cases op with
-  | put k v =>
-    obtain ⟨t', h1, h2⟩ := put_sim h k (hnc k v rfl) v
-    exact ⟨t', by simp [Patricia.step, h1, Outcome.map, Map.step], h2⟩
-  | get k => exact ⟨t, by simp [Patricia.step, get_sim h, Outcome.map, Map.step], h⟩
-  | delete k => simp [Op.patriciaScope] at hs
-  | deleteMin => simp [Op.patriciaScope] at hs
-  | deleteMax => simp [Op.patriciaScope] at hs
-  | deleteAll => exact ⟨_, rfl, PInv.new⟩
-  | size => exact ⟨t, by simp [Patricia.step, Map.step, size_sim h], h⟩
-  | min => exact ⟨t, by simp [Patricia.step, min_sim h, Outcome.map, Map.step], h⟩
-  | max => exact ⟨t, by simp [Patricia.step, max_sim h, Outcome.map, Map.step], h⟩
-  | floor k => exact ⟨t, by simp [Patricia.step, floor_sim h, Outcome.map, Map.step], h⟩
-  | ceiling k => exact ⟨t, by simp [Patricia.step, ceiling_sim h, Outcome.map, Map.step], h⟩
-  | select i => exact ⟨t, by simp [Patricia.step, select_sim h, Outcome.map, Map.step], h⟩
-  | rank k => exact ⟨t, by simp [Patricia.step, rank_sim h, Outcome.map, Map.step], h⟩
-  | range lo hi => exact ⟨t, by simp [Patricia.step, range_sim h, Outcome.map, Map.step], h⟩
-  | rangeSize lo hi => exact ⟨t, by simp [Patricia.step, rangeSize_sim h, Outcome.map, Map.step], h⟩
-  | all => exact ⟨t, by simp [Patricia.step, all_sim h, Outcome.map, Map.step], h⟩
-  | withPrefix p => simp [Op.patriciaScope] at hs
-  | longestPrefixOf s => simp [Op.patriciaScope] at hs
-  | «match» pat => simp [Op.patriciaScope] at hs
-
-theorem run_sim {t : Patricia V} {m : Map V} (h : PInv t m) (ops : List (Op V)) (hh : PatriciaHistory ops = true) :
-    Patricia.run t ops = (Map.run m ops).map Outcome.ok := by
-  induction ops generalizing t m with
-  | nil => rfl
-  | cons op ops ih =>
-    simp only [PatriciaHistory, Bool.and_eq_true] at hh
-    obtain ⟨⟨hs, hnc⟩, hrest⟩ := hh
-    have hnc' : ∀ k v, op = .put k v → Small k := by
-      intro k v hop
-      subst hop
-      simpa [Op.smallKeys, Small] using hnc
-    obtain ⟨t', h1, h2⟩ := step_sim h op hs hnc'
-    simp only [Patricia.run, runTrace, h1, Map.run, runSpec, List.map_cons]
-    congr 1
-    exact ih h2 hrest
-
 end Patricia
 end AlgoVerif.C06
